@@ -86,11 +86,18 @@ class Env:
         self.ran = []
         self.seen = []
         self.nraised = 0
+        self.unit_n = {}  # per-unit count of exceptions raised (markers are MARK-<unit>-<k>, k counted per unit)
         self.epoch = 0
         self.events = []  # ("handler", marker) and ("outcome", name) in one sequence
         self.anomalies = []
         self.obj = Target()
         self.fmarks = []  # (text snippet, cid) of exceptions raised by the framework, not by generated code
+
+    def nxt(self, unit):
+        """Index (1-based, per unit) of the next exception raised in `unit`."""
+        self.nraised += 1
+        self.unit_n[unit] = self.unit_n.get(unit, 0) + 1
+        return self.unit_n[unit]
 
     def note_framework(self, snippet, unit, idx):
         self.fmarks.append((snippet, "tb:%s:%d" % (unit, idx)))
@@ -164,20 +171,16 @@ class ChildFixture(fixtures.Fixture):
         p.source[cid] = [cid.encode("utf8")]
         self.addDetail("fxd", p._sourced(cid))
         if p.f == "f_nestbad":
-            env.nraised += 1
-            i = env.nraised
-            env.nraised += 1  # SetupError of the child
-            env.note_framework("SetupError", env.current_unit, env.nraised)
-            env.nraised += 1  # SetupError of the parent
-            env.note_framework("SetupError", env.current_unit, env.nraised)
+            i = env.nxt(env.current_unit)
+            env.note_framework("SetupError", env.current_unit, env.nxt(env.current_unit))  # SetupError of the child
+            env.note_framework("SetupError", env.current_unit, env.nxt(env.current_unit))  # SetupError of the parent
             raise RuntimeError("MARK-%s-%d" % (env.current_unit, i))
         if p.f == "f_nestcr":
             self.addCleanup(self._clean_raises)
 
     def _clean_raises(self):
         env = self.parent.env
-        env.nraised += 1
-        raise RuntimeError("MARK-fxclean:%s-%d" % (self.parent.f, env.nraised))
+        raise RuntimeError("MARK-fxclean:%s-%d" % (self.parent.f, env.nxt("fxclean:" + self.parent.f)))
 
 
 class ClassicFixture(fixtures.Fixture):
@@ -192,8 +195,7 @@ class ClassicFixture(fixtures.Fixture):
         super().setUp()
         cid = "fx:%s:fxd" % self.f
         self.addDetail("fxd", fixed_content(cid))
-        self.env.nraised += 1
-        raise KeyboardInterrupt("MARK-%s-%d" % (self.env.current_unit, self.env.nraised))
+        raise KeyboardInterrupt("MARK-%s-%d" % (self.env.current_unit, self.env.nxt(self.env.current_unit)))
 
 
 class SynthFixture(fixtures.Fixture):
@@ -210,8 +212,7 @@ class SynthFixture(fixtures.Fixture):
 
         def read():
             if f == "f_gr":
-                env.nraised += 1
-                raise RuntimeError("MARK-fxgather:%s-%d" % (f, env.nraised))
+                raise RuntimeError("MARK-fxgather:%s-%d" % (f, env.nxt("fxgather:" + f)))
             for chunk in list(src.get(cid, ())):
                 yield chunk
 
@@ -227,10 +228,9 @@ class SynthFixture(fixtures.Fixture):
             # a child fixture used by this one (its details are merged into ours as fxd-1)
             self.useFixture(ChildFixture(self))
         if self.f == "f_bad":
-            self.env.nraised += 1
-            i = self.env.nraised
-            self.env.nraised += 1  # the SetupError that fixtures adds
-            self.env.note_framework("SetupError", self.env.current_unit, self.env.nraised)
+            i = self.env.nxt(self.env.current_unit)
+            # the SetupError that fixtures adds
+            self.env.note_framework("SetupError", self.env.current_unit, self.env.nxt(self.env.current_unit))
             raise RuntimeError("MARK-%s-%d" % (self.env.current_unit, i))
         self.addCleanup(self._clean)
 
@@ -242,24 +242,23 @@ class SynthFixture(fixtures.Fixture):
         env.epoch += 1
         self.source.clear()  # the fixture's resources are gone now
         if self.f == "f_cr":
-            env.nraised += 1
-            raise RuntimeError("MARK-%s-%d" % (unit, env.nraised))
+            raise RuntimeError("MARK-%s-%d" % (unit, env.nxt(unit)))
 
 
 def make_exc(case, env, unit, kind):
     """Build (not raise) the exception object for `kind`; each gets a unique marker MARK-<unit>-<i>."""
-    env.nraised += 1
-    mark = "MARK-%s-%d" % (unit, env.nraised)
+    k = env.nxt(unit)
+    mark = "MARK-%s-%d" % (unit, k)
     if kind == "fail":
         return case.failureException(mark)
     if kind == "err":
         return RuntimeError(mark)
     if kind == "skip":
-        return case.skipException("skipreason:%s:%d" % (unit, env.nraised))
+        return case.skipException("skipreason:%s:%d" % (unit, k))
     if kind == "skipobj":
-        return case.skipException(ReasonObj("skipreason:%s:%d" % (unit, env.nraised)))
+        return case.skipException(ReasonObj("skipreason:%s:%d" % (unit, k)))
     if kind == "subskip":
-        return SubSkip("skipreason:%s:%d" % (unit, env.nraised))
+        return SubSkip("skipreason:%s:%d" % (unit, k))
     if kind == "ki":
         return KeyboardInterrupt(mark)
     if kind == "exit":
@@ -330,7 +329,16 @@ class SynthBase(testtools.TestCase):
         self._exec("tearDown")
 
     def _body(self):
-        self._exec("body")
+        if not self.env.prog.get("xfdec"):
+            return self._exec("body")
+        # under unittest.expectedFailure every Exception leaving the method is swallowed into _ExpectedFailure:
+        # framework exceptions announced inside it (SetupError, empty MultipleExceptions) are never rendered
+        n = len(self.env.fmarks)
+        try:
+            return self._exec("body")
+        except Exception:
+            del self.env.fmarks[n:]
+            raise
 
     def _exec(self, unit):
         env = self.env
@@ -372,8 +380,8 @@ class SynthBase(testtools.TestCase):
                 upcall()
                 return
             elif op == "retnoup":
-                env.nraised += 1  # the framework's ValueError
-                env.note_framework("TestCase.%s was not called" % unit, unit, env.nraised)
+                # the framework's ValueError
+                env.note_framework("TestCase.%s was not called" % unit, unit, env.nxt(unit))
                 return
             elif op == "failfixture":
                 self.useFixture(ClassicFixture(env, a) if a == "f_classic" else SynthFixture(env, a))
@@ -390,8 +398,7 @@ class SynthBase(testtools.TestCase):
                 e2 = exc_info_of(make_exc(self, env, unit, b))
                 raise MultipleExceptions(exc_info_of(MultipleExceptions(e1, e2)))
             elif op == "raise0":
-                env.nraised += 1
-                env.note_framework("MultipleExceptions", unit, env.nraised)
+                env.note_framework("MultipleExceptions", unit, env.nxt(unit))
                 raise MultipleExceptions()
             else:
                 raise AssertionError("unknown op %r" % (op,))
@@ -400,17 +407,16 @@ class SynthBase(testtools.TestCase):
     def _raise(self, unit, kind):
         env = self.env
         if kind == "xfail":
-            env.nraised += 1
-            mark = "MARK-%s-%d" % (unit, env.nraised)
+            k = env.nxt(unit)
+            mark = "MARK-%s-%d" % (unit, k)
 
             def predicate():
                 raise self.failureException(mark)
 
-            self.expectFailure("xfreason:%s:%d" % (unit, env.nraised), predicate)
+            self.expectFailure("xfreason:%s:%d" % (unit, k), predicate)
             env.anomalies.append("expectFailure returned")
         elif kind == "uxs":
-            env.nraised += 1
-            self.expectFailure("uxreason:%s:%d" % (unit, env.nraised), lambda: None)
+            self.expectFailure("uxreason:%s:%d" % (unit, env.nxt(unit)), lambda: None)
             env.anomalies.append("expectFailure returned")
         else:
             raise make_exc(self, env, unit, kind)
